@@ -72,7 +72,11 @@ def rand_buffer(rng, m, s, params, maxlen=72):
         maxlen = probe + 8
     n = rng.choice([0, 1, 2, 3, 4, 6, 8, 12, 16, 24, 32, 48, maxlen])
     if k < 0.5:
-        data = bytearray(refsem.encode_random(m, s.name, pdict(s, params), rng, max(n, rng.choice([16, 32, 48, maxlen, maxlen]))))
+        refsem.EXTREME_P[0] = 0.75 if rng.random() < 0.2 else 0.0
+        try:
+            data = bytearray(refsem.encode_random(m, s.name, pdict(s, params), rng, max(n, rng.choice([16, 32, 48, maxlen, maxlen]))))
+        finally:
+            refsem.EXTREME_P[0] = 0.0
         v = refsem.view(m, s.name, pdict(s, params), data)
         sz = v.size()
         r = rng.random()
